@@ -2,8 +2,7 @@ import ApdVerif.Model.Conv
 import ApdVerif.Lemmas.Digits
 import ApdVerif.Lemmas.NumDigitsTable
 /-! # Helper lemmas for C19 (NumDigits, Reduce) — core only -/
-namespace Apd
-
+namespace Apd.C19L
 /-- `bitLen` characterisation: 2^(bl-1) ≤ a < 2^bl for a ≠ 0 -/
 theorem bitLen_spec (a : Nat) (ha : a ≠ 0) :
     1 ≤ bitLen a ∧ 2 ^ (bitLen a - 1) ≤ a ∧ a < 2 ^ bitLen a := by
@@ -93,4 +92,4 @@ theorem stripZeros_spec (n : Nat) (hn : n ≠ 0) :
   unfold stripZeros
   simpa using And.intro this.1 this.2.2
 
-end Apd
+end Apd.C19L
